@@ -136,6 +136,15 @@ def parser_jobs(tier):
             for (offl, offc) in ([(0, 0)] if one else [(0, 0), (2, 3)]):
                 q = dict(p, lab=lab, offl=offl, offc=offc)
                 out.append({"name": pname("rule", q), "func": "VerifHarness_ParseRule", "params": q, "unwind": 400, "reach": ["end"], "max_failures": 4, "timeout_s": JOB_TIMEOUT_S})
+    # `for` / `keep_firing_for` as the LAST key of the rule, in every scalar style: its positions and the rule's last line
+    for field in (1, 2):
+        for style in range(9):
+            for (ind, cind) in ([(2, 2)] if tier == "quick" else [(0, 2), (2, 2), (2, 4)]):
+                multi = style == 3 or style >= 4
+                q = {"style": style, "ind": ind, "cind": cind, "n1": 2, "n2": 2 if multi else 0, "cmt": 0, "brk": 0, "xi": 0, "pre": 2, "post": 0,
+                     "findings": 0, "field": field, "offl": 0, "offc": 0}
+                out.append({"name": "last-%s-%s-i%d-c%d" % (["expr", "for", "kff"][field], STYLES[style], ind, cind), "func": "VerifHarness_ParseRuleLast",
+                            "params": q, "unwind": 400, "reach": ["end"], "max_failures": 4, "timeout_s": JOB_TIMEOUT_S})
     return out
 
 
